@@ -43,6 +43,10 @@ fn run_prop(ctx: &Ctx) -> Option<(Report, Meta)> {
 fn main() {
     let ctx = Ctx::from_args();
     install_panic_hook();
+    if ctx.prop == "DUMP-DF-REFERENCE" {
+        println!("{}", serde_json::to_string_pretty(&field::dump_df_reference()).unwrap());
+        return;
+    }
     watchdog_start(60);
     if let Some(p) = &ctx.replay {
         let code = replay::replay(&ctx, p);
